@@ -299,6 +299,8 @@ def run(ctx):
 def _same_value(a, b):
     if a is b:
         return True
+    if isinstance(a, list) and isinstance(b, list):
+        return list(a) == list(b)       # a deque is modelled as a list subclass: its copy may be a plain list
     if isinstance(a, (list, tuple, dict, str, int, bool, type(None))) and type(a) is type(b):
         return a == b
     return False
